@@ -284,6 +284,16 @@ type Func struct {
 	Ret    *Type // nil = nichts
 	Body   []Stmt
 	Words  []string // alias: Words[0] <p0> Words[1] <p1> ... ; len(Words) == len(Params)+1, Words[0] non-empty
+	InMain bool     // ProgramSplit keeps it in the main module (it uses the globals of main)
+}
+
+// WrapMain moves the statements of main into a parameterless function that main calls: the holders become local
+// variables of a function. Globals take other paths in the compiler (an argument that is a global is always
+// copied, locals may be passed without a copy at -O 2).
+func WrapMain(p *Program) {
+	f := &Func{Name: "hauptteil", Body: p.Main, Words: []string{"starte den hauptteil"}, InMain: true}
+	p.Funcs = append(p.Funcs, f)
+	p.Main = []Stmt{&CallStmt{C: &Call{F: f}}}
 }
 
 type Program struct {
